@@ -160,6 +160,7 @@ class Run:
     expiry: list[float] = field(default_factory=list)  # logical-clock instant at which each session's TTL ends
     responses: list[tuple[str, int, str]] = field(default_factory=list)  # (thread, rid or -1, outcome)
     rlock_is_sched: bool = True
+    lock_names: dict[str, int] = field(default_factory=dict)  # scheduler name of a session's lock -> session serial
 
 
 class State:
@@ -233,6 +234,46 @@ class _Impl:
             if not ended:
                 w.emit("dispatch_end", serial, rid, "return")
             w.emit("method_exit", serial, rid)
+
+
+def late_lock_dispatches(run: Run) -> list[str]:
+    """Requests that took a session's lock only AFTER the session had left the registry and dispatched all the same.
+
+    From C25's statement: a token gives access "until the session is closed, evicted or expired".  A request may be
+    queued on the session lock while an evictor (reaper, expiry at lookup, shutdown) removes the session; when the
+    request finally gets the lock the session is gone, so it must be answered session_lost.  (A request that already
+    held the lock when the session was removed is a different matter: it legitimately finishes its dispatch.)
+    Evidence is the scheduler trace: 'unregistered' events from the registry's dict, 'acquired' events of the
+    scheduler-aware session lock, 'dispatch_begin' events from the method body.
+    """
+    if run.res is None or not run.rlock_is_sched:
+        return []
+    trace = list(run.res.trace)
+    gone: dict[int, int] = {}
+    for i, (_step, _t, tag) in enumerate(trace):
+        if isinstance(tag, tuple) and tag and tag[0] == "unregistered" and tag[1] not in gone:
+            gone[tag[1]] = i
+    out: list[str] = []
+    for i, (_step, tname, tag) in enumerate(trace):
+        if not (isinstance(tag, tuple) and tag and tag[0] == "dispatch_begin"):
+            continue
+        serial, rid = tag[1], tag[2]
+        te = gone.get(serial)
+        if te is None or i < te:
+            continue
+        # the lock acquisition that admitted this dispatch: the last 'acquired' of this session's lock by this thread
+        ta = None
+        for j in range(i - 1, -1, -1):
+            _s, t2, tag2 = trace[j]
+            if t2 == tname and isinstance(tag2, tuple) and len(tag2) == 2 and tag2[0] == "acquired" and run.lock_names.get(tag2[1]) == serial:
+                ta = j
+                break
+            if t2 == tname and isinstance(tag2, tuple) and tag2 and tag2[0] == "request_begin":
+                break
+        if ta is not None and ta > te:
+            out.append(f"request {rid} (thread {tname}) acquired the lock of session {serial} at trace#{ta}, after the session left the "
+                       f"registry at trace#{te}, and still dispatched at trace#{i}")
+    return out
 
 
 def _outcome(result: Any) -> str:
@@ -318,6 +359,33 @@ def execute(case: dict[str, Any]) -> Run:
         for e in registry._entries.values():
             if not isinstance(e.lock, S.RLock):
                 run.rlock_is_sched = False
+            elif isinstance(e.state, State):
+                run.lock_names[e.lock.name] = e.state.serial
+
+        class _ObservedEntries(dict):  # type: ignore[type-arg]
+            """The registry's own dict, reporting every removal (observation only; same contents, same semantics)."""
+
+            def _gone(self, entry: Any) -> None:
+                st = getattr(entry, "state", None)
+                if isinstance(st, State):
+                    world.emit("unregistered", st.serial)
+
+            def pop(self, key: Any, *default: Any) -> Any:
+                if key in self:
+                    self._gone(dict.__getitem__(self, key))
+                return dict.pop(self, key, *default)
+
+            def __delitem__(self, key: Any) -> None:
+                if key in self:
+                    self._gone(dict.__getitem__(self, key))
+                dict.__delitem__(self, key)
+
+            def clear(self) -> None:
+                for entry in list(self.values()):
+                    self._gone(entry)
+                dict.clear(self)
+
+        registry._entries = _ObservedEntries(registry._entries)
 
         # ---- managed threads
         rid_next = [0]
